@@ -106,10 +106,15 @@ func WithSubscriptionStore(store SubscriptionStore) Option {
 	}
 }
 
-// persistEvent saves an event to storage (only if store is configured)
-func (bus *EventBus) persistEvent(ctx context.Context, eventType reflect.Type, event any) {
+// persistedOffsetKey is the context key under which PublishContext hands the
+// offset an event was persisted at to the handlers of that publish
+type persistedOffsetKey struct{}
+
+// persistEvent saves an event to storage (only if store is configured).
+// It returns the offset the event was stored at and whether it was stored.
+func (bus *EventBus) persistEvent(ctx context.Context, eventType reflect.Type, event any) (Offset, bool) {
 	if bus.store == nil {
-		return // No persistence configured
+		return "", false // No persistence configured
 	}
 
 	// Marshal the event first
@@ -118,7 +123,7 @@ func (bus *EventBus) persistEvent(ctx context.Context, eventType reflect.Type, e
 		if bus.persistenceErrorHandler != nil {
 			bus.persistenceErrorHandler(event, eventType, fmt.Errorf("failed to marshal event: %w", err))
 		}
-		return
+		return "", false
 	}
 
 	// Use EventType() to respect TypeNamer interface if implemented
@@ -161,7 +166,9 @@ func (bus *EventBus) persistEvent(ctx context.Context, eventType reflect.Type, e
 		if bus.persistenceErrorHandler != nil {
 			bus.persistenceErrorHandler(event, eventType, fmt.Errorf("failed to save event: %w", saveErr))
 		}
+		return "", false
 	}
+	return offset, true
 }
 
 // Replay replays events from an offset
@@ -333,18 +340,18 @@ func SubscribeWithReplay[T any](
 	}
 
 	// Subscribe for future events with offset tracking
-	wrappedHandler := func(event T) {
+	wrappedHandler := func(handlerCtx context.Context, event T) {
 		handler(event)
 
-		// Update offset after handling
-		bus.storeMu.RLock()
-		offset := bus.lastOffset
-		bus.storeMu.RUnlock()
-
-		subStore.SaveOffset(ctx, subscriptionID, offset)
+		// Update offset after handling: the offset this very event was persisted
+		// at (the bus's last appended offset may belong to another publish, and
+		// there is none to save if persisting this event failed)
+		if offset, ok := handlerCtx.Value(persistedOffsetKey{}).(Offset); ok {
+			subStore.SaveOffset(ctx, subscriptionID, offset)
+		}
 	}
 
-	return Subscribe(bus, wrappedHandler, opts...)
+	return SubscribeContext(bus, wrappedHandler, opts...)
 }
 
 // MemoryStore is a simple in-memory implementation of EventStore and SubscriptionStore.
